@@ -759,8 +759,9 @@ func (c *wsConn) ExpandCID(rid string) string {
 
 func (c *wsConn) TokenReset(tids map[string]bool, subject string) {
 	c.Enqueue(func() {
-		// Exit if no token ID is set, or if it isn't affected.
-		if c.tid == "" || !tids[c.tid] {
+		// Exit if the connection has been disposed, if no token ID is set, or
+		// if it isn't affected.
+		if c.disposing || c.tid == "" || !tids[c.tid] {
 			return
 		}
 		c.serv.cache.CustomAuth(c, subject, "", c.token, nil, func(_ json.RawMessage, _ string, _ *codec.Meta, err error) {
